@@ -11,6 +11,7 @@ import GM.Proof.ConvertXE2EMain
 import GM.Proof.ConvertXE2ESpec
 import GM.Proof.ConvertXE2ECells
 import GM.Proof.ConvertXE2ETable
+import GM.Proof.ConvertXE2EEsc
 import GM.Props.ConvertNP
 import GM.Props.ConvertL
 
@@ -143,6 +144,27 @@ theorem escaped_pipe_walk_segments_resolve (c : GCfg) (src : Bytes) (ps : List I
     (kids : List GM.Inl.Node) (h : ∀ s ∈ GM.Proof.InlinesTotal.segsOfL kids, segInRange src s) :
     ∃ ts, inlineTreesL c src (GM.TableX.escNodes ps kids) = .ok ts :=
   GM.Proof.ConvertXE2ECells.cell_children_resolve c src ps hs kids h
+
+/-! ### `BlockPhaseXGood`, the part about escaped-pipe positions that does not need the block driver -/
+
+/-- **one row** (table.go:215-235): the positions parseRow records for the escaped pipes of a row are strictly ascending and
+    lie inside the paragraph line the row is cut from, `[seg.start, seg.stop)` -/
+theorem row_escaped_pipe_positions_ascend (src : Bytes) (seg : GM.Table.Seg) (aligns : List GM.Table.Align) (isHeader : Bool)
+    (h : seg.start ≤ seg.stop) :
+    (GM.Proof.ConvertXE2EEsc.rowEsc (GM.Table.parseRow src seg aligns isHeader)).Pairwise (· < ·) ∧
+      ∀ p ∈ GM.Proof.ConvertXE2EEsc.rowEsc (GM.Table.parseRow src seg aligns isHeader), seg.start ≤ p ∧ p < seg.stop :=
+  GM.Proof.ConvertXE2EEsc.parseRow_esc_in src seg aligns isHeader h
+
+/-- **one Table**: whenever tableParagraphTransformer.Transform builds a table from paragraph lines that follow each other in
+    the source (none inverted, each ends where or before the next starts), the escaped-pipe positions it records — the header's,
+    then the body rows' in order: exactly the `lines` `buildTable` writes into the TableHeader / TableRow records, i.e. this
+    table's stretch of `escOfTree` — are strictly ascending, each inside one of the paragraph's lines. What is left of
+    "the recorded positions ascend" is the order ACROSS tables (tree order = source order: a fact about the driver). -/
+theorem table_escaped_pipe_positions_ascend (src : Bytes) (lines : List GM.Table.Seg) (t : GM.Table.Table)
+    (ho : GM.Proof.ConvertXE2EEsc.OrdLines lines) (h : (GM.Table.transform src lines).table = some t) :
+    (GM.Proof.ConvertXE2EEsc.tableEsc t).Pairwise (· < ·) ∧
+      ∀ p ∈ GM.Proof.ConvertXE2EEsc.tableEsc t, ∃ s ∈ lines, s.start ≤ p ∧ p < s.stop :=
+  GM.Proof.ConvertXE2EEsc.transform_esc src lines t ho h
 
 /-- the full statement (all 16 member sets, `extension.GFM` among them): with Table NOT proved. `convertl_total_of_block_phase_x`
     reduces it to a statement about the block phase with the table paragraph transformer (`BlockPhaseXGood`);
